@@ -23,7 +23,9 @@
 (*                                         attributes) and print the       *)
 (*                                         identity it reaches; fn: the    *)
 (*                                         reference sits in a function    *)
-(*                                         body called on the spot         *)
+(*                                         body called on the spot (and,   *)
+(*                                         as rendered, possibly inside a  *)
+(*                                         larger expression)              *)
 (*     all     [k:"all", names]            __all__ = [...]                 *)
 (*                                                                         *)
 (* Part 1 restates the part of Python's import system these statements     *)
